@@ -69,6 +69,28 @@ CHECKS.update({
           "pyarrow's reader semantics is the assumed table arrow_keep, validated on real files.", "DESIGN.md section 6 C18"),
 })
 
+
+# families added after the fourth seeding round (DESIGN.md section 9) and the models added late (Align.v, Select.v)
+EXTRA_TECH = {
+ "C01": "; Select.v rewrite-rule theorems (head / partitions push-down, Head(SortValues) -> NFirst); concat-selection family c01_concat.py vs the unoptimized plan",
+ "C02": "; Select.v nfirst_tree_correct (n smallest rows for every partitioning, exact); reduction trees at every depth (reduce_layer.py), T-LAYER align_layer / select_layer",
+ "C03": "; reader hand-over family c03_reader.py (predicate trees over reader-expressible and other atoms, both parquet readers)",
+ "C05": "; reader-option objects embedded in read tasks (c05_readers.py, private-inputs executor)",
+ "C06": "; Align.v divisions theorems with T-LAYER align_layer",
+ "C07": "; column selections absorbed by 22 source variants (c07_sources.py), node-by-node declared vs computed schema",
+ "C08": "; histories of queries sharing argument objects vs a fresh interpreter (c08_alias.py)",
+ "C09": "; groupby plans (c09_groupby.py) with deep planner-object scan and cloudpickle under the no-serialize guard",
+ "C10": "; count / distinct reductions with NA-handling options under every knob setting (c10_counts.py)",
+ "C11": "; Select.v lowering theorems for head / tail with T-LAYER select_layer (shape of the lowered expression and rows vs the extracted model)",
+ "C12": "; joins as consumers of co-location (c12_joins.py) and the contract sweep of the splitting functions",
+ "C13": "; repartitioning of derived collections (c13_hist.py)",
+ "C15": "; T-GEN global_state_reviewed; sessions on shared sub-expressions (c15_shared.py)",
+ "C16": "; T-GEN global_state_reviewed; queries planned under an ambient configuration (c16_ambient.py)",
+ "C17": "; cuts in front of a multi-input step (c17_multi.py)",
+ "C18": "; parquet piece layouts (c18_layout.py: row groups, split_row_groups, aggregate_files, blocksize, lengths)",
+ "C19": "; parquet plan histories (c19_parquet.py)",
+}
+
 def main():
     checks = []
     for pid in ALL:
@@ -84,7 +106,7 @@ def main():
             "engine": "coq-model",
             "level_claimed": {"category": "proof", "text": c["text"], "design_ref": c["ref"]},
             "level_note": c["note"],
-            "technique": c["tech"],
+            "technique": c["tech"] + EXTRA_TECH.get(pid, ""),
         })
     m = {
         "version": 1,
